@@ -42,6 +42,9 @@ def fold_helper(ctx, model, method):
     reg = Registry()
     intr = intrinsics(reg)
     ev = Ev(model, {}, intr, ctx=ctx)
+    from ..interpmodel import length_of
+    from ..sym import Tup as _Tup
+    ev.shape_of = lambda v: _Tup([length_of(v)], "tuple")         # the data handed to a helper are vectors over the sampled volumes
     name = HELPERS[method]
     ref = f"{MG}:{name}"
     f = model.func(ref)
@@ -205,7 +208,36 @@ def fold_nodes(ctx, model, method, nv, order):
         vals = sorted({x.get((i,)) for i in range(x.shape[0])})
         return ArrV(0, (len(vals),), cells={(i,): v for i, v in enumerate(vals)})
 
-    intr = {"scipy.interpolate.lagrange": capture("lagrange"), "scipy.interpolate.KroghInterpolator": capture("KroghInterpolator"),
+    class VanderNodes:
+        def __init__(self, x, ncols):
+            self.x, self.ncols = x, ncols
+
+    def vander(ev, a, k):
+        if not (isinstance(a[0], ArrV) and len(a[0].shape) == 1):
+            raise AnalysisError("numpy.vander of something that is not a node vector")
+        return VanderNodes(a[0], a[1] if len(a) > 1 else k.get("N"))
+
+    def lstsq(ev, a, k):
+        # the least-squares polynomial through the node vector: the nodes are what the Vandermonde matrix was built from
+        if not isinstance(a[0], VanderNodes):
+            raise AnalysisError("numpy.linalg.lstsq of something that is not the Vandermonde matrix of the nodes")
+        k.get("rcond")
+        captured.append(("lstsq", a[0].x, a[1]))
+        coef = NodeInterp("lstsq", a[0].x.shape[0], "coef")
+        return Tup([coef, sp.Integer(0), sp.Integer(0), sp.Integer(0)])
+
+    def poly1d(ev, a, k):
+        if isinstance(a[0], NodeInterp):
+            return NodeInterp(a[0].cls, a[0].nnodes)
+        raise AnalysisError("numpy.poly1d of something that is not a coefficient vector of the node fit")
+
+    def polyval(ev, a, k):
+        if isinstance(a[0], NodeInterp):
+            return sp.Function(f"NODEINTERP_{a[0].tag}")(as_sym(a[1]), sp.Integer(0))
+        raise AnalysisError("numpy.polyval of something that is not the node polynomial")
+
+    intr = {"numpy.vander": vander, "numpy.linalg.lstsq": lstsq, "numpy.poly1d": poly1d, "numpy.polyval": polyval,
+            "scipy.interpolate.lagrange": capture("lagrange"), "scipy.interpolate.KroghInterpolator": capture("KroghInterpolator"),
             "scipy.interpolate.PchipInterpolator": capture("PchipInterpolator"), "scipy.interpolate.Akima1DInterpolator": capture("Akima1DInterpolator"),
             "scipy.interpolate.CubicHermiteSpline": capture("CubicHermiteSpline"), "scipy.interpolate.CubicSpline": capture("CubicSpline"),
             "scipy.interpolate.UnivariateSpline": capture("UnivariateSpline"), "scipy.interpolate.InterpolatedUnivariateSpline": capture("UnivariateSpline"),
@@ -376,15 +408,21 @@ def r_helpers(ctx, model):
             # columns are nearly collinear over a +-10 % volume range (singular values down to ~1e-9 of the largest at order 5):
             # a rank cut-off above machine precision silently lowers the order of the fit
             ncols = it.opts.get("ncols")
-            ctx.check(ncols is not None and sp.simplify(as_sym(ncols) - (ORDER + 1)) == 0, f"{method}: the fitted polynomial has degree = the chosen order (order + 1 coefficients)", w,
-                      expected="order + 1 columns of the ln V Vandermonde matrix / numpy.polyfit(deg=order)", found=f"{ncols} coefficient(s) for order ORDER",
+            from ..interpmodel import length_of
+            by_order = ncols is not None and sp.simplify(as_sym(ncols) - (ORDER + 1)) == 0
+            # a method that interpolates THROUGH its nodes (lagrange, krogh): the least-squares polynomial with as many coefficients as nodes is the interpolating one
+            through_nodes = method in ("lagrange", "krogh") and ncols is not None and sp.simplify(as_sym(ncols) - length_of(it.x)) == 0
+            ctx.check(by_order or through_nodes, f"{method}: the fitted polynomial has degree = the chosen order (order + 1 coefficients)" if method not in ("lagrange", "krogh") else
+                      f"{method}: the polynomial has as many coefficients as there are nodes (it passes through all of them)", w,
+                      expected="order + 1 columns of the ln V Vandermonde matrix / numpy.polyfit(deg=order)" if method not in ("lagrange", "krogh") else "number of coefficients = number of selected nodes",
+                      found=f"{ncols} coefficient(s) for order ORDER, {length_of(it.x)} node(s)",
                       explanation=f"method {method!r}: the least-squares polynomial does not have the degree the configuration asks for: data that are "
                                   f"polynomial in ln V of the chosen order are not reproduced (degree too low) or fewer volumes than expected suffice (too high)",
                       key=f"{method}.degree")
             rc = it.opts.get("rcond")
             from ..interpmodel import default_or_smaller_cutoff
             try:
-                rc_ok = default_or_smaller_cutoff(rc, ncols)
+                rc_ok = default_or_smaller_cutoff(rc, ncols, length_of(it.x))
             except (TypeError, ValueError, AnalysisError):
                 rc_ok = False
             ctx.check(rc_ok, f"{method}: least squares keeps the full column rank (rcond at machine precision)", w,
